@@ -78,22 +78,46 @@ impl fmt::Debug for Final {
 }
 
 impl fmt::Display for Final {
+    /// Displays the complete type.
+    ///
+    /// The output is the type syntax of the human-readable encoding and parses back to the type,
+    /// so it is never truncated. Error messages use [`Truncated`] instead.
     fn fmt(&self, f: &mut fmt::Formatter) -> fmt::Result {
+        self.fmt_limited(f, None)
+    }
+}
+
+/// Displays a complete type, truncated beyond a maximum depth and number of nodes.
+///
+/// Used in error messages, where the type may be exponentially larger than the program.
+pub(super) struct Truncated<'a>(pub &'a Final);
+
+impl fmt::Display for Truncated<'_> {
+    fn fmt(&self, f: &mut fmt::Formatter) -> fmt::Result {
+        self.0.fmt_limited(
+            f,
+            Some((super::MAX_DISPLAY_DEPTH, super::MAX_DISPLAY_LENGTH)),
+        )
+    }
+}
+
+impl Final {
+    /// Displays the type; with `limits = Some((depth, length))` the output is cut
+    /// below the given depth and after the given number of nodes.
+    fn fmt_limited(&self, f: &mut fmt::Formatter, limits: Option<(usize, usize)>) -> fmt::Result {
         let mut skipping: Option<Tmr> = None;
-        for data in self.verbose_pre_order_iter::<NoSharing>(Some(super::MAX_DISPLAY_DEPTH)) {
-            if data.index > super::MAX_DISPLAY_LENGTH {
-                write!(
-                    f,
-                    "... [truncated type after {} nodes]",
-                    super::MAX_DISPLAY_LENGTH
-                )?;
-                return Ok(());
-            }
-            if data.depth == super::MAX_DISPLAY_DEPTH {
-                if data.n_children_yielded == 0 {
-                    f.write_str("...")?;
+        for data in self.verbose_pre_order_iter::<NoSharing>(limits.map(|(depth, _)| depth)) {
+            if let Some((max_depth, max_length)) = limits {
+                if data.index > max_length {
+                    write!(f, "... [truncated type after {} nodes]", max_length)?;
+                    return Ok(());
                 }
-                continue;
+                if data.depth == max_depth {
+                    if data.n_children_yielded == 0 {
+                        f.write_str("...")?;
+                    }
+                    continue;
+                }
             }
             if let Some(skip) = skipping {
                 if data.is_complete && data.node.tmr == skip {
